@@ -81,6 +81,38 @@ pub fn exec(line: &str) -> String {
         },
         ["display", a] => hex(shape!(a).to_string().as_bytes()),
         ["echo", a] => sexp(&shape!(a)),
+        ["serde", a] => match serde_json::to_string(&shape!(a)) {
+            Ok(t) => hex(t.as_bytes()),
+            Err(_) => "err".into(),
+        },
+        ["serdert", a] => {
+            let s0 = shape!(a);
+            let t = serde_json::to_string(&s0).unwrap();
+            match serde_json::from_str::<JsonShape>(&t) {
+                Ok(back) => format!("ok {}", sexp(&back)),
+                Err(_) => "err".into(),
+            }
+        }
+        ["p_c11", a] => {
+            let s0 = shape!(a);
+            let t1 = serde_json::to_string(&s0).unwrap();
+            let t2 = serde_json::to_string(&s0.clone()).unwrap();
+            let v = serde_json::to_value(&s0).unwrap();
+            if t1 != t2 || serde_json::to_value(&s0).unwrap() != v {
+                return "violated: serialisation not deterministic".into();
+            }
+            if s0.to_string() != s0.clone().to_string() || format!("{s0}") != s0.to_string() {
+                return "violated: Display not deterministic".into();
+            }
+            match serde_json::from_str::<JsonShape>(&t1) {
+                Ok(back) if back == s0 => {}
+                _ => return "violated: serde round trip".into(),
+            }
+            match serde_json::from_value::<JsonShape>(v) {
+                Ok(back) if back == s0 => "ok".into(),
+                _ => "violated: serde round trip through Value".into(),
+            }
+        }
         ["inferdoc", h] => show_res(&JsonShape::from_str(&text!(h))),
         ["inferv", h] => match serde_json::from_str::<serde_json::Value>(&text!(h)) {
             Ok(v) => {
